@@ -13,7 +13,8 @@ import fx
 ALL_NAMES = ['A', 'B', 'C', 'D', 'Tz', 'D3', 'G', 'Pr', 'P', 'Pk', 'Pw', 'Mv', 'Mvi', 'Rs', 'Rv', 'Rn', 'Bd',
              'R1', 'R2', 'R3', 'Hw', 'Pl', 'R1i', 'Hwi', 'Pli', 'R1v', 'Hwv', 'Plv', 'A2', 'AI', 'BI', 'DI',
              'TzI', 'GT', 'CT', 'PrT', 'PT', 'PkT', 'PwT', 'MvT', 'RsT', 'RvT', 'BdT', 'R1T', 'R2T', 'R3T',
-             'R1iT', 'R1vT', 'PlT', 'I2v', 'I3v', 'Iqu', 'Im', 'H2', 'Hh', 'H3', 'Hq', 'Hm', 'H6']
+             'R1iT', 'R1vT', 'PlT', 'I2v', 'I3v', 'Iqu', 'Im', 'H2', 'Hh', 'H3', 'Hq', 'Hm', 'H6',
+             'Dl', 'DlI', 'Prl', 'PrlT', 'BDl', 'BDi', 'BRl', 'BCl', 'Il', 'Hl', 'Mc', 'McT', 'Mn']
 
 # a smaller alphabet for longer chains: one representative per pattern of C07 plus contexts
 CORE_NAMES = ['A', 'AI', 'D', 'DI', 'H2', 'Hh', 'I2v', 'G', 'GT', 'Pr', 'PrT', 'P', 'PT', 'Pk', 'PkT', 'Tz', 'H3',
@@ -209,15 +210,25 @@ def run(prop: str, tier: str, seed: int) -> int:
     rng = random.Random(seed)
     from concurrent.futures import ThreadPoolExecutor
 
-    with ThreadPoolExecutor(max_workers=3) as pool:
+    with ThreadPoolExecutor(max_workers=4) as pool:
         jobs = [pool.submit(generate_chains, 3, ALL_NAMES, 2),
                 # length 4 over one space: a cancelling pair in the middle whose neighbours become reducible
                 pool.submit(generate_chains, 4, SMALL_NAMES, 1)]
         if tier != 'quick':
             jobs.append(pool.submit(generate_chains, 4, CORE_NAMES, 3))
         nest_job = pool.submit(nested_cases, tier)
+        # behaviours beyond the exhaustive bound: random walks of TLC through chains of up to 8 (quick) / 10 operators
+        sim_cfg = MC_CFG.format(maxlen=8 if tier == 'quick' else 10, names=tla_set(CORE_NAMES), first=tla_set(CORE_NAMES))
+        sim_job = pool.submit(fx.run_tlc, 'MC_Reduce', sim_cfg, workers=1, simulate=f"num={250 if tier == 'quick' else 4000}",
+                              depth=100, seed=seed + 7, tag='sim')
         gens = [j.result() for j in jobs]
         nest = nest_job.result()
+        sim = sim_job.result()
+        if sim.violated:
+            raise fx.MachineryError(f'MC_Reduce (simulation) violates {sim.violated}')
+        for c in sim.cases:
+            c['simulated'] = True
+        gens.append(sim)
     t1 = t2 = time.time()
     cases, seen = [], set()
     for g in gens + [nest]:
@@ -230,10 +241,10 @@ def run(prop: str, tier: str, seed: int) -> int:
     if tier == 'quick':
         # every chain in which the specification's scan fires a rule is replayed; the others and the
         # nested terms are sampled, stratified by the set of operand kinds / by template and container
-        firing = [c for c in cases if c.get('fired', 0) >= 2 or (c.get('fired', 0) == 1 and len(c['names']) <= 3)]
-        one4 = [c for c in cases if c.get('fired', 0) == 1 and len(c['names']) > 3]
+        firing = [c for c in cases if c.get('simulated') or c.get('fired', 0) >= 2 or (c.get('fired', 0) == 1 and len(c['names']) <= 3)]
+        one4 = [c for c in cases if not c.get('simulated') and c.get('fired', 0) == 1 and len(c['names']) > 3]
         firing += rng.sample(one4, min(len(one4), 300))
-        quiet = [c for c in cases if 'fired' in c and c['fired'] == 0]
+        quiet = [c for c in cases if 'fired' in c and c['fired'] == 0 and not c.get('simulated')]
         nestd = [c for c in cases if 'fired' not in c]
         q, s1 = fx.stratified_sample(quiet, lambda c: '/'.join(sorted(set(_kinds(c['term'])))), 1, seed)
         if len(q) > 300:
@@ -262,7 +273,8 @@ def run(prop: str, tier: str, seed: int) -> int:
         'traces_validated_against_impl': stats['accepted'],
         'evaluations': len(picked), 'distinct_nontrivial': nontriv,
         'rule': 'cases = every well-typed chain over the alphabet up to the length bound (TLC, exhaustive) plus '
-                'nested terms (blocks, sums, inverses of composites); replayed = all (thorough) or a sample '
+                'nested terms (blocks, sums, inverses of composites) plus TLC -simulate random walks through chains of up to 8-10 '
+                'operators; replayed = all (thorough) or a sample '
                 'stratified by chain length x set of operand kinds (quick); non-trivial = at least one rule fired '
                 'in the real reduce(); distinct by canonical JSON of the recorded trace',
         'exhaustive': sample is None,
